@@ -80,9 +80,20 @@ func lenOf(v ssa.Value) (ssa.Value, bool) {
 }
 
 func checkC08(p *Program, r *Report) {
-	r.Explanation = "Decides the necessary condition the property's own text points at: every destination of lz4.UncompressBlock is sized from the wire length prefix or by a growth loop that cannot give up below 255x the source (LZ4's maximum expansion), any ratio-based rejection uses a bound >= 255, and a prefix that is read is used. Losslessness itself depends on third-party algorithms and runtime data and is not decidable statically; Snappy delegates sizing to the library (noted, not checked)."
-	r.Trusted = []string{"go/ssa", "LZ4 block format: one compressed byte expands to at most 255 bytes", "pierrec/lz4 and golang/snappy implementations"}
-	r.Assumptions = []string{"UncompressBlock is the only LZ4 decompression entry used by the module (checked: call sites enumerated)"}
+	c08Rules(p, r)
+	// a segment encoded with compression must be decodable by the same codec: both sides follow the
+	// same framing for every payload length, including the empty payload (shared with C06)
+	ws, _ := analyseSegmentWriter(p)
+	rs, _ := analyseSegmentReader(p)
+	c06Trace(r, ws, rs)
+}
+
+func c08Rules(p *Program, r *Report) {
+	if r.Prop == "C08" {
+		r.Explanation = "Decides the necessary condition the property's own text points at: every destination of lz4.UncompressBlock is sized from the wire length prefix or by a growth loop that cannot give up below 255x the source (LZ4's maximum expansion), any ratio-based rejection uses a bound >= 255, and a prefix that is read is used. Losslessness itself depends on third-party algorithms and runtime data and is not decidable statically; Snappy delegates sizing to the library (noted, not checked)."
+		r.Trusted = []string{"go/ssa", "LZ4 block format: one compressed byte expands to at most 255 bytes", "pierrec/lz4 and golang/snappy implementations"}
+		r.Assumptions = []string{"UncompressBlock is the only LZ4 decompression entry used by the module (checked: call sites enumerated)"}
+	}
 	r.Floor("lz4-sizing", 2)
 	var sites []*ssa.Call
 	prefixFns := map[*ssa.Function]bool{}
